@@ -4,6 +4,16 @@ KD_DIST_OLD = ("            let [r0, g0, b0] = rgb;\n            let [r1, g1, b1
                "                + (g0 as i32 - g1 as i32).pow(2)\n                + (b0 as i32 - b1 as i32).pow(2)\n")
 BLEND_Q = "                if color.to_rgba()[3] < 255 {\n                    color = bg.blend_over(color);\n                }\n"
 SWAP_OLD = '                for col in 0..ewidth {\n                    errors[col] = errors[col + ewidth];\n                    errors[col + ewidth] = ColorError::new();\n                }\n'
+NEAR_OLD = ("            let (guess, guess_dist) = match next {\n                None => (node, node_dist),\n                Some(next_index) => {\n"
+            "                    let (guess, guess_dist) = find_rec(nodes, next_index, target);\n                    if guess_dist >= node_dist {\n"
+            "                        (node, node_dist)\n                    } else {\n                        (guess, guess_dist)\n                    }\n                }\n            };\n")
+FAR_OLD = ("            match other {\n                None => (guess, guess_dist),\n                Some(other_index) => {\n"
+           "                    let (other, other_dist) = find_rec(nodes, other_index, target);\n                    if other_dist < guess_dist {\n"
+           "                        (other, other_dist)\n                    } else {\n                        (guess, guess_dist)\n                    }\n                }\n            }\n")
+BLEND_FN_OLD = ("        fn blend(bg: RGBA, color: RGBA) -> RGBA {\n            if color.to_rgba()[3] < 255 {\n                bg.blend_over(color)\n            } else {\n"
+                "                color\n            }\n        }\n\n")
+SPREAD_OLD = ("                    errors[col + 2] += error * 0.4375; // 7/16\n                    errors[col + ewidth] += error * 0.1875; // 3/16\n"
+              "                    errors[col + ewidth + 1] += error * 0.3125; // 5/16\n                    errors[col + ewidth + 2] += error * 0.0625; // 1/16\n")
 KDNODE_GENERAL = "            nodes.push(KDNode {\n                color,\n                color_index,\n                dim,\n                left,\n                right,\n            });"
 
 MUTANTS = [
@@ -287,4 +297,60 @@ MUTANTS = [
      "edits": [(I, KD_DIST_OLD, "            rgb.iter()\n                .zip(node.color.iter())\n                .take(2)\n                .map(|(c0, c1)| {\n                    let diff = i32::from(*c0) - i32::from(*c1);\n                    diff * diff\n                })\n                .sum()\n")]},
     {"id": "C13-metric-zip-sum-unsigned", "prop": "C13", "expect": "C13/",
      "edits": [(I, KD_DIST_OLD, "            rgb.iter()\n                .zip(node.color.iter())\n                .map(|(c0, c1)| {\n                    let diff = (*c0 - *c1) as i32;\n                    diff * diff\n                })\n                .sum()\n")]},
+    # ---- refactoring shapes of seeded/benign/C13-G..I (and their breaking counterparts) --------------------------------------------------------
+    {"id": "C13-benign-near-branch-combinators", "prop": "C13", "benign": True,
+     "edits": [(I, NEAR_OLD, "            let (guess, guess_dist) = next\n                .map(|next_index| find_rec(nodes, next_index, target))\n"
+                             "                .filter(|(_, guess_dist)| *guess_dist < node_dist)\n                .unwrap_or((node, node_dist));\n"),
+               (I, "            let other_dist = (target[node.dim] as i32 - node.color[node.dim] as i32).pow(2);\n            if other_dist >= guess_dist {",
+                "            let plane_delta = i32::from(target[node.dim]) - i32::from(node.color[node.dim]);\n            if plane_delta * plane_delta >= guess_dist {")]},
+    {"id": "C13-benign-far-branch-map-or", "prop": "C13", "benign": True,
+     "edits": [(I, FAR_OLD, "            other.map_or((guess, guess_dist), |other_index| {\n                let (other, other_dist) = find_rec(nodes, other_index, target);\n"
+                            "                if other_dist < guess_dist {\n                    (other, other_dist)\n                } else {\n                    (guess, guess_dist)\n                }\n            })\n")]},
+    {"id": "C13-benign-near-branch-and-then-then-some", "prop": "C13", "benign": True,
+     "edits": [(I, NEAR_OLD, "            let (guess, guess_dist) = next\n                .and_then(|next_index| {\n                    let found = find_rec(nodes, next_index, target);\n"
+                             "                    (found.1 < node_dist).then_some(found)\n                })\n                .unwrap_or_else(|| (node, node_dist));\n")]},
+    {"id": "C13-near-branch-filter-inverted", "prop": "C13", "expect": "NEAREST-SHAPE/image::KDTree::find::find_rec/best-update",
+     "edits": [(I, NEAR_OLD, "            let (guess, guess_dist) = next\n                .map(|next_index| find_rec(nodes, next_index, target))\n"
+                             "                .filter(|(_, guess_dist)| *guess_dist > node_dist)\n                .unwrap_or((node, node_dist));\n")]},
+    {"id": "C13-near-branch-node-not-compared", "prop": "C13", "expect": "NEAREST-SHAPE/image::KDTree::find::find_rec/best-update",
+     "edits": [(I, NEAR_OLD, "            let (guess, guess_dist) = next\n                .map(|next_index| find_rec(nodes, next_index, target))\n                .unwrap_or((node, node_dist));\n")]},
+    {"id": "C13-near-branch-combinator-wrong-child", "prop": "C13", "expect": "NEAREST-SHAPE/image::KDTree::find::find_rec/",
+     "edits": [(I, NEAR_OLD, "            let (guess, guess_dist) = next\n                .map(|next_index| find_rec(nodes, next_index.saturating_sub(1), target))\n"
+                             "                .filter(|(_, guess_dist)| *guess_dist < node_dist)\n                .unwrap_or((node, node_dist));\n")]},
+    {"id": "C13-benign-blend-hoisted-and-shared", "prop": "C13", "benign": True,
+     "edits": [(I, BLEND_FN_OLD, ""), (I, "img.iter().map(|c| blend(bg, *c)).collect()", "img.iter().map(|c| blend_with_background(bg, *c)).collect()"),
+               (I, "octree.insert(blend(bg, color));", "octree.insert(blend_with_background(bg, color));"),
+               (I, "                let mut color = *self.get(pos)?;\n" + BLEND_Q, "                let mut color = blend_with_background(bg, *self.get(pos)?);\n"),
+               (I, "impl ColorError {\n    fn new() -> Self {", "fn blend_with_background(bg: RGBA, color: RGBA) -> RGBA {\n    if color.to_rgba()[3] < 255 {\n        bg.blend_over(color)\n    } else {\n        color\n    }\n}\n\n"
+                   "impl ColorError {\n    fn new() -> Self {")]},
+    {"id": "C13-hoisted-blend-threshold-128", "prop": "C13", "expect": "BLEND-AGREE",
+     "edits": [(I, BLEND_FN_OLD, ""), (I, "img.iter().map(|c| blend(bg, *c)).collect()", "img.iter().map(|c| blend_with_background(bg, *c)).collect()"),
+               (I, "octree.insert(blend(bg, color));", "octree.insert(blend_with_background(bg, color));"),
+               (I, "                let mut color = *self.get(pos)?;\n" + BLEND_Q, "                let mut color = blend_with_background(bg, *self.get(pos)?);\n"),
+               (I, "impl ColorError {\n    fn new() -> Self {", "fn blend_with_background(bg: RGBA, color: RGBA) -> RGBA {\n    if color.to_rgba()[3] < 128 {\n        bg.blend_over(color)\n    } else {\n        color\n    }\n}\n\n"
+                   "impl ColorError {\n    fn new() -> Self {")]},
+    {"id": "C13-hoisted-blend-arguments-swapped-in-quantize", "prop": "C13", "expect": "BLEND-AGREE/image::Image::quantize/quantize-site",
+     "edits": [(I, BLEND_FN_OLD, ""), (I, "img.iter().map(|c| blend(bg, *c)).collect()", "img.iter().map(|c| blend_with_background(bg, *c)).collect()"),
+               (I, "octree.insert(blend(bg, color));", "octree.insert(blend_with_background(bg, color));"),
+               (I, "                let mut color = *self.get(pos)?;\n" + BLEND_Q, "                let mut color = blend_with_background(*self.get(pos)?, bg);\n"),
+               (I, "impl ColorError {\n    fn new() -> Self {", "fn blend_with_background(bg: RGBA, color: RGBA) -> RGBA {\n    if color.to_rgba()[3] < 255 {\n        bg.blend_over(color)\n    } else {\n        color\n    }\n}\n\n"
+                   "impl ColorError {\n    fn new() -> Self {")]},
+    {"id": "C13-benign-spread-method-over-slice", "prop": "C13", "benign": True,
+     "edits": [(I, SPREAD_OLD, "                    error.spread(&mut errors, col, ewidth);\n"),
+               (I, "impl ColorError {\n    fn new() -> Self {", "impl ColorError {\n    fn spread(self, errors: &mut [ColorError], col: usize, stride: usize) {\n        errors[col + 2] += self * 0.4375;\n"
+                   "        errors[col + stride] += self * 0.1875;\n        errors[col + stride + 1] += self * 0.3125;\n        errors[col + stride + 2] += self * 0.0625;\n    }\n\n    fn new() -> Self {")]},
+    {"id": "C13-spread-method-over-slice-plus-three", "prop": "C13", "expect": "TOTAL/image::ColorError::spread/BOUNDS",
+     "edits": [(I, SPREAD_OLD, "                    error.spread(&mut errors, col, ewidth);\n"),
+               (I, "impl ColorError {\n    fn new() -> Self {", "impl ColorError {\n    fn spread(self, errors: &mut [ColorError], col: usize, stride: usize) {\n        errors[col + 2] += self * 0.4375;\n"
+                   "        errors[col + stride] += self * 0.1875;\n        errors[col + stride + 1] += self * 0.3125;\n        errors[col + stride + 3] += self * 0.0625;\n    }\n\n    fn new() -> Self {")]},
+    {"id": "C13-benign-rows-copy-within-fill", "prop": "C13", "benign": True,
+     "edits": [(I, SWAP_OLD, "                debug_assert_eq!(errors.len(), ewidth * 2);\n                errors.copy_within(ewidth.., 0);\n                errors[ewidth..].fill(ColorError::new());\n")]},
+    {"id": "C13-benign-rows-copy-within-bounded-range", "prop": "C13", "benign": True,
+     "edits": [(I, SWAP_OLD, "                let filled = errors.len();\n                debug_assert!(filled >= ewidth);\n                errors.copy_within(ewidth.., 0);\n                errors[ewidth..].fill_with(ColorError::new);\n")]},
+    {"id": "C13-rows-copy-within-past-the-end", "prop": "C13", "expect": "TOTAL/image::Image::quantize/LIBPRE",
+     "edits": [(I, SWAP_OLD, "                errors.copy_within(..ewidth, ewidth + 1);\n                errors[ewidth..].fill(ColorError::new());\n")]},
+    {"id": "C13-rows-fill-range-past-the-end", "prop": "C13", "expect": "TOTAL/image::Image::quantize/RANGEIDX",
+     "edits": [(I, SWAP_OLD, "                errors.copy_within(ewidth.., 0);\n                errors[ewidth * 2 + 1..].fill(ColorError::new());\n")]},
+    {"id": "C13-rows-truncated-before-use", "prop": "C13", "expect": "ERR-ROWS",
+     "edits": [(I, SWAP_OLD, "                errors.copy_within(ewidth.., 0);\n                errors.truncate(ewidth);\n                errors.resize_with(ewidth * 2 - 1, ColorError::new);\n")]},
 ]
